@@ -173,6 +173,26 @@ Theorem C01_res_bus_dcline_refuted :
 Proof. exact res_bus_dcl_refuted. Qed.
 Print Assumptions C01_res_bus_dcline_refuted.
 
+(* enforce_q_lims: a gen at its limit is folded into the bus demand PD/QD, which _get_Sload scales with the ZIP voltage
+   factor: extra imbalance pl*(ci(v-1)+cz(v^2-1)); partial under G01ql (no limited generation at a voltage dependent bus),
+   refuted by a witness that satisfies the ZIP-averaging guard G01p *)
+Theorem C01_imbalance_qlim_fold : forall n ref k v s pl ql,
+  ((memn k ref && has_gen n k) = false ->
+   resid_fold_p n ref k v s pl == mism_fold_p n k v s pl ql - zipdef_p n k v + qlimdef_p n k v pl) /\
+  (has_gen n k = false ->
+   resid_fold_q n k v s ql == mism_fold_q n k v s pl ql - zipdef_q n k v + qlimdef_q n k v ql).
+Proof. intros. split; [apply imbalance_fold_p | apply imbalance_fold_q]. Qed.
+Print Assumptions C01_imbalance_qlim_fold.
+Theorem C01_qlim_fold_partial : forall n k v pl ql,
+  G01ql n k pl ql = true -> qlimdef_p n k v pl == 0 /\ qlimdef_q n k v ql == 0.
+Proof. exact G01ql_def. Qed.
+Print Assumptions C01_qlim_fold_partial.
+Theorem C01_qlim_fold_refuted :
+  G01p witq_net 1 = true /\ G01ql witq_net 1 20 5 = false /\
+  exists s, mism_fold_p witq_net 1 (99#100) s 20 5 == 0 /\ ~ resid_fold_p witq_net [] 1 (99#100) s 20 == 0.
+Proof. exact qlim_fold_refuted. Qed.
+Print Assumptions C01_qlim_fold_refuted.
+
 (* the hypotheses of the partial theorem are satisfiable by a non-trivial bus (two ZIP loads + a stepped shunt) *)
 Example C01_nonvacuous :
   has_gen ok_net 1 = false /\ G01p ok_net 1 = true /\ G01q ok_net 1 = true /\
